@@ -619,6 +619,26 @@ func c09Crafted(rng *core.RNG) []c09Blob {
 		b, _ := sp.Build()
 		add("load", "PNG", b, fmt.Sprintf("mluc-all-records-point-at-whole-tag: %d records x %d bytes, deflated into a %d-byte PNG", recs, n, len(b)))
 	}
+	// description elements shorter than their fixed part (0..28 bytes of a well-formed element),
+	// and a v2 description whose text is all NUL bytes
+	{
+		full := map[string][]byte{"desc": imggen.TextDescription("short element"), "mluc": nil}
+		full["mluc"], _ = imggen.Mluc([]imggen.MlucRecord{{Lang: "en", Country: "US", Text: []uint16{'s', 'h', 'o', 'r', 't'}}}, nil, 0, 12)
+		for _, typ := range []string{"desc", "mluc"} {
+			for n := 0; n <= 28 && n <= len(full[typ]); n++ {
+				prof, _ := imggen.ICCSpec{Header: imggen.MinimalHeader(typ == "mluc"), Tags: []imggen.ICCTag{{Sig: "desc", Data: full[typ][:n]}, {Sig: "cprt", Data: []byte{1, 2, 3, 4}}}}.Build()
+				add("icc", "ICC", prof, fmt.Sprintf("short-description-element: %s element cut to %d bytes", typ, n))
+			}
+		}
+		for _, n := range []int{1, 2, 3, 16, 300} {
+			el := imggen.TextDescription(string(make([]byte, n)))
+			prof, _ := imggen.ICCSpec{Header: imggen.MinimalHeader(false), Tags: []imggen.ICCTag{{Sig: "desc", Data: el}}}.Build()
+			add("icc", "ICC", prof, fmt.Sprintf("nul-description: v2 description of %d NUL bytes", n))
+			sp := imggen.PNGSpec{W: 5, H: 7, Depth: 8, ColorType: 2, ICC: &imggen.PNGICC{Name: "n", Profile: prof, Level: 6}, IDAT: []byte{1, 2}}
+			b, _ := sp.Build()
+			add("load", "PNG", b, fmt.Sprintf("nul-description: v2 description of %d NUL bytes, in a PNG", n))
+		}
+	}
 	// deflate bombs: highly compressible profiles
 	for _, n := range []int{1 << 20, 8 << 20} {
 		sp := imggen.PNGSpec{W: 5, H: 7, Depth: 8, ColorType: 2, ICC: &imggen.PNGICC{Name: "z", Profile: make([]byte, n), Level: 9}, IDAT: []byte{1}}
